@@ -20,3 +20,15 @@ from contracts import C03_kepler as K3
 for t in K3.P.tasks:
     if t.name.startswith("stumpff_cs.") or t.name == "stumpff.algebraic_relations" or t.name.startswith("stiefel_Gs."):
         P.tasks.append(Task(P, "kepler_tangent_map." + t.name, t.fn, t.func, files=t.files or K3.P.files, timeout=t.timeout, order=t.order, z3_ms=t.z3_ms, polyid_s=t.polyid_s))
+
+
+# the variational particles stay the derivative of the real trajectory under WHFast with keep_unsynchronized = 1 only if the cached
+# coordinates part2 leaves behind carry the variational centre of mass at the END of the step (C09 keep/restore contract on the
+# real reb_integrator_whfast_part2)
+from contracts import C09_keep_restore as KR
+P3 = Pack("C16", KR.FILES, "WHFast part2 keeps the variational centre of mass under keep_unsynchronized (shared with C09)")
+PACKS.append(P3)
+P3.assumptions += ["shared with C09: " + a for a in KR.P.assumptions]
+for t in KR.P.tasks:
+    if t.name.startswith("whfast.part2.variational."):
+        P3.tasks.append(Task(P3, "keep_unsynchronized." + t.name, t.fn, t.func, files=t.files or KR.FILES, timeout=t.timeout))
